@@ -77,8 +77,9 @@ def akai_payload2():
 def akai_payload3():
     """names that are sanitised differently depending on their role (directory / file), names that need sanitising, and
     the SAME raw name used for a volume in one partition and for a sample in another (and the other way round)"""
-    layout = [[("DRUMS", ["KICK-", "X.", "A+B", "SNARE"]), ("SNARE", ["DRUMS", "KICK-"])],
-              [("KICK-", ["SNARE", "X."]), ("X.", ["KICK-", "A+B", "DRUMS"])]]
+    layout = [[("DRUMS", ["KICK-", "X.", "A+B", "SNARE"]), ("SNARE", ["DRUMS", "KICK-"]), ("DRUMS", ["TWIN", "SNARE"])],
+              [("KICK-", ["SNARE", "X."]), ("X.", ["KICK-", "A+B", "DRUMS"]), ("KICK-", ["OTHER", "SNARE", "SNARE"])]]
+    # (two volumes of one partition with the SAME stored name -- listed as NAME and NAME (2) -- and equal file names inside)
     parts = []
     seq = 80
     for vols_spec in layout:
@@ -272,8 +273,8 @@ class Check(CheckBase):
     rule = ("per image (AKAI: 2 partitions x 2 volumes, L/R pair, fragmented chains, a program, a file filling its last "
             "sector; Roland: 2 volumes + orphan performance, shared sample, reverse mode, start point > 0, two samples in one cluster chain reached through different performances, L/R pair; CDDA: duplicate and missing "
             "titles; AKAI and Roland again as read-only real files; a third AKAI image whose names are sanitised differently by role "
-            "(ending in '-' / '.', '+') and where one raw name is a volume in one partition and a sample in another, paths "
-            "discovered through its own listings) the alphabet is ls(p) for every node path p, three invalid "
+            "(ending in '-' / '.', '+'), where one raw name is a volume in one partition and a sample in another and where two "
+            "sibling volumes (and two sibling files) carry the same stored name, paths discovered through its own listings) the alphabet is ls(p) for every node path p, three invalid "
             "paths, export into a fresh directory, and export into one fixed directory (so that a repeated export writes over "
             "its own files); ALL histories of length <=2 (quick) / <=3 (thorough; Roland <=2 plus all length-3 histories "
             "ending in export) run on ONE image object; oracle: observable of the last operation (stdout; exported paths + "
